@@ -380,6 +380,21 @@ func c15JudgeB(tb vt.TB, c *c15CaseB) (cut bool, labels []string, nontrivial boo
 		tb.Fatalf("mkdir: %v", err)
 	}
 	p := action.NewPackage()
+	if c.SecondOfTwo {
+		// the same action object packages another chart first (other name, other version, other destination)
+		first := filepath.Join(tmp, "first", "decoy")
+		if err := c15WriteTree(first, []c15File{c15F("Chart.yaml", []byte("apiVersion: v2\nname: decoy\nversion: 9.9.9-decoy\nappVersion: \"decoy\"\n")), c15F("values.yaml", []byte("decoy: true\n"))}); err != nil {
+			tb.Fatalf("write tree: %v", err)
+		}
+		p.Destination = filepath.Join(tmp, "first-out")
+		if err := os.MkdirAll(p.Destination, 0o755); err != nil {
+			tb.Fatalf("mkdir: %v", err)
+		}
+		if _, err := p.Run(first, nil); err != nil {
+			tb.Fatalf("harness: packaging the first chart failed: %v", err)
+		}
+		labels = append(labels, "second-chart-of-one-package-action")
+	}
 	p.Destination = out
 	tgz, err := p.Run(src, nil)
 	if !loadable {
